@@ -4,7 +4,7 @@ cd /verif && GOFLAGS=-mod=mod GOPROXY=off GOSUMDB=off GOTOOLCHAIN=local GOWORK=o
 for v in "$@"; do
   repo=/tmp/var/$v; [ "$v" = repo ] && repo=/repo
   mods=bigtable,storage
-  case $v in B[1-3]-*|B[7-9]-*|B1[345]-*|B18-1|B19-*|B2[01]-*|B2[567]-*|B3[123789]-*|B4[357]-*) mods=bigtable;; B[4-6]-*|B1[0-2]-*|B1[67]-*|B18-2|B2[234]-*|B2[89]-*|B30-*|B3[456]-*|B4[012468]-*) mods=storage;; esac
+  case $v in B[1-3]-*|B[7-9]-*|B1[345]-*|B18-1|B19-*|B2[01]-*|B2[567]-*|B3[123789]-*|B4[3579]-*|B5[01]-*) mods=bigtable;; B[4-6]-*|B1[0-2]-*|B1[67]-*|B18-2|B2[234]-*|B2[89]-*|B30-*|B3[456]-*|B4[012468]-*|B5[234]-*) mods=storage;; esac
   echo "== $v"
   ./bin/emucheck all -repo $repo -verif /tmp/var.verif -modules $mods | python3 -c "
 import json,sys
